@@ -176,6 +176,24 @@ Proof.
     exists n, es. split; [apply select_In; auto|exact Hc].
 Qed.
 
+(* the platform SET of every node in the selected run is the full run's set restricted to the selection *)
+Lemma mem_triple_iff a b t u : (In t a <-> In u b) -> mem_triple t a = mem_triple u b.
+Proof.
+  intros H. destruct (mem_triple t a) eqn:E1, (mem_triple u b) eqn:E2; try reflexivity.
+  - apply mem_triple_In, H, mem_triple_In in E1. congruence.
+  - apply mem_triple_In, H, mem_triple_In in E2. congruence.
+Qed.
+Lemma projection_sets (keep : pname -> bool) (am am' : amap) :
+  (forall n x, In (n, x) am' <-> keep n = true /\ In (n, x) am) ->
+  forall names x, plats_of (filter keep names) am' x = filter keep (plats_of names am x).
+Proof.
+  intros H names x. unfold plats_of. induction names as [|n r IH]; [reflexivity|]. cbn [filter].
+  destruct (keep n) eqn:Ek; cbn [filter].
+  - rewrite (mem_triple_iff am' am (n, x) (n, x)) by (rewrite H; tauto).
+    destruct (mem_triple (n, x) am); cbn [filter]; [rewrite Ek|]; rewrite IH; reflexivity.
+  - destruct (mem_triple (n, x) am); cbn [filter]; [rewrite Ek|]; exact IH.
+Qed.
+
 (* ---------- order of commands and of platforms ---------- *)
 (* cfg' is cfg with the platforms permuted and each platform's commands permuted *)
 Definition reordered (cfg cfg' : config) : Prop :=
